@@ -258,7 +258,9 @@ def corpus(rng, fixed):
 RECEIVERS = [
     ("string", "'abc'"), ("empty-string", "''"), ("astral-string", "'a😀b'"), ("number", "5.5"), ("integer", "7"), ("nan", "NaN"), ("boolean", "true"), ("array", "[3, 1, 2]"), ("empty-array", "[]"),
     ("nested-array", "[[1, 2], ['a'], {}]"), ("object", "({a: 1, b: 'x'})"), ("null-proto-object", "Object.create(null)"), ("function", "(function (a, b) { return a; })"), ("arrow", "((a) => a)"),
-    ("bound-function", "(function (a) { return this; }).bind({})"), ("regexp", "/a(b)?/g"), ("sticky-regexp", "/x*/y"), ("error", "new Error('m')"), ("type-error", "new TypeError('t')"),
+    ("bound-function", "(function (a) { return this; }).bind({})"), ("regexp", "/a(b)?/g"), ("sticky-regexp", "/x*/y"), ("boundary-sticky-regexp", "/\\bfoo|\\Bx/y"), ("multiline-sticky-regexp", "/^a|b$/gmy"),
+    ("lookaround-sticky-regexp", "/(?<=a)b|(?=c)|(?!d)e/y"), ("backref-sticky-regexp", "/(a)?\\1\\b/iy"), ("unicode-regexp", "/\\u{1F600}|./gu"), ("dotall-class-regexp", "/[^\\w\\s]+$/ms"),
+    ("error", "new Error('m')"), ("type-error", "new TypeError('t')"),
     ("int32array", "new Int32Array(4)"), ("uint8array", "new Uint8Array([1, 2, 3])"), ("float64array", "new Float64Array(2)"), ("arguments", "(function () { return arguments; })(1, 2)"),
     ("date-now", "Date.now()"), ("native-function", "Math.max"), ("native-method", "[].push"), ("accessor-object", "({get g() { throw new Error('g'); }, set g(v) { throw new Error('s'); }})"),
 ]
@@ -289,7 +291,11 @@ def api_cases(rng, surface, quick, seed):
            ("binary+", "var r = %(r)s; r + %(a)s"), ("binary<", "var r = %(r)s; r < %(a)s"), ("binary==", "var r = %(r)s; r == %(a)s"), ("unary-", "var r = %(r)s; [-r, +r, ~r, !r, typeof r, r++]"),
            ("compound", "var r = %(r)s; r[%(a)s] += %(b)s"), ("for-in", "var r = %(r)s; for (var k in r) { r[k]; } k"), ("for-of", "var r = %(r)s; var n = 0; for (var v of r) { n++; } n"),
            ("spread-call", "var r = %(r)s; Math.max.apply(null, r)"), ("template", "var r = %(r)s; String(r) + JSON.stringify(r)"), ("defineProperty", "var r = %(r)s; Object.defineProperty(r, %(a)s, %(b)s)"),
-           ("switch", "var r = %(r)s; switch (r) { case %(a)s: 1; break; default: 2; }"), ("throw", "var r = %(r)s; throw r")]
+           ("switch", "var r = %(r)s; switch (r) { case %(a)s: 1; break; default: 2; }"), ("throw", "var r = %(r)s; throw r"),
+           # regex protocol state set by the script, then every consumer of it
+           ("lastIndex-test", "var r = %(r)s; r.lastIndex = %(a)s; [r.test(%(b)s), r.lastIndex]"), ("lastIndex-exec", "var r = %(r)s; r.lastIndex = %(a)s; [r.exec('ab cd'), r.lastIndex]"),
+           ("lastIndex-match", "var r = %(r)s; r.lastIndex = %(a)s; ['ab'.match(r), 'ab cd'.replace(r, 'x'), 'a b'.split(r), 'ab'.search(r), r.lastIndex]"),
+           ("as-search-arg", "var r = %(r)s; ['ab'.indexOf(r), 'ab'.includes(r), 'ab'.split(r, %(a)s), 'ab'.replace(r, %(a)s), 'ab'.match(r), 'ab'.startsWith(r)]")]
     for kind, expr in RECEIVERS:
         r = random.Random(h([kind, "ops", seed if quick else 0]))
         for label, tpl in OPS:
